@@ -83,6 +83,11 @@ def execute(c, proc_factory, n_calls=None):
         procs = proc_factory(i, runner_kind)
         call = Call()
         call.kind = "map" if method == "map" else "run"
+        if c.get("rand_nodes"):
+            import random
+
+            random.seed(424242)  # user code that relies on a seeded global RNG: the same draws with or without observers
+
         ctx.reset()
         common = dict(kw)
         if method == "map":
